@@ -53,6 +53,23 @@ def gen_script(rng, scenario, knobs):
     eff = gen.effective_options(scenario['options'])
     k_ticks = bound_ticks(eff)
     dist = []
+    if knobs.get('fixed_script'):
+        # a scripted sequence of disturbances (families built for one situation): templates with ranges
+        used = []
+        for tpl in rng.choice(knobs['fixed_script']):
+            d = {'kind': tpl['kind'], 'jitter': round(rng.uniform(0.0, TICK), 2),
+                 'gap_ticks': rng.choice(tpl.get('gap_ticks', [k_ticks + 2]))}
+            if tpl.get('same_target') and used:
+                d['target'] = used[-1]
+            else:
+                d['target'] = rng.choice([n for n in nicks if n not in used] or nicks)
+            used.append(d['target'])
+            if 'down' in tpl:
+                d['down'] = round(rng.uniform(*tpl['down']), 2)
+            if 'gap_s' in tpl:
+                d['gap_s'] = round(rng.uniform(*tpl['gap_s']), 2)
+            dist.append(d)
+        return {'boot': boot, 'late': late, 'dist': dist, 'k_ticks': k_ticks}
     for _ in range(n_dist):
         kind = rng.choice(kinds)
         if 'shutdown' in kind and kind.startswith('user_') and eff['failure'] == 'SHUTDOWN':
